@@ -177,7 +177,7 @@ class Lin:
             tgt = self.M.resolve_call(self.f, c)
             if tgt[0] == "ext" and tgt[1].split(".")[-1] in NP_CONST:
                 return NP_CONST[tgt[1].split(".")[-1]]
-            if isinstance(f, ast.Attribute) and isinstance(f.value, ast.Name) and f.value.id in ("xp", "np") and f.attr in NP_CONST:
+            if isinstance(f, ast.Attribute) and isinstance(f.value, ast.Name) and (f.value.id in ("xp", "np") or f.value.id in self.M.xp_names(self.f)) and f.attr in NP_CONST:
                 return NP_CONST[f.attr]  # array module received as a parameter
             if isinstance(f, ast.Attribute) and f.attr in METH_KEEP | {"astype"} and self.kind(f.value) == Z:
                 return Z  # view / copy / cast of a zero buffer is a zero buffer
